@@ -425,7 +425,20 @@ def r5_fresh_and_static(ctx, rule="C03.R5"):
     goc = prog.method("Variables", "get_or_create")
     if goc is None:
         raise CheckError("anchor Variables::get_or_create")
-    creators = {mir.callee_path(t) for g in [goc] + prog.closures_of(goc) for _b, t in g.body.calls()
+    # what get_or_create calls to make the fresh entry: in its closures, and in helpers of its own
+    # file that it calls or hands over by name
+    makers, todo = [], [goc]
+    while todo:
+        g = todo.pop()
+        if g in makers:
+            continue
+        makers.append(g)
+        todo += prog.closures_of(g)
+        for c in prog.call_edges(g):
+            cf = prog.fns.get(c)
+            if cf is not None and cf.crate == "rusty_basic" and cf.file == goc.file and cf.name != "get_or_create":
+                todo.append(cf)
+    creators = {mir.callee_path(t) for g in makers for _b, t in g.body.calls()
                 if "rusty_basic" in (mir.callee_of(t) or "") and not mir.callee_path(t).endswith("get_or_create")}
     repl_ok = None
     for g in [h] + [prog.fns[c] for c in prog.call_edges(h) if c in prog.fns and prog.fns[c].crate == "rusty_basic"]:
